@@ -148,7 +148,7 @@ def observe_all(prog, rng, lanes, keys, addrs=(), with_list=True, read=True):
 
 def history_program(rng, length, lanes=ALL_LANES, nkeys=6, ndata=5, removal_weight=0.2,
                     bulk=False, observe_every=1, full_opts=False, algos=("sha256",), plant=False,
-                    stray=False, garbage=False):
+                    stray=False, garbage=False, rootlink=False):
     """Random history of keyed writes (several entry points), raw inserts, removals of all kinds,
     with lookups of every key and a listing after every mutating step."""
     prog = small_universe(rng, nkeys, ndata)
@@ -169,6 +169,10 @@ def history_program(rng, length, lanes=ALL_LANES, nkeys=6, ndata=5, removal_weig
             else:
                 o = rand_opts(rng, full_opts)
                 o["algo"] = a
+                if full_opts and a in ("sha256", "sha512") and rng.random() < 0.25:
+                    # a declared integrity - the computed one, or that plus a hash of a weaker
+                    # algorithm: the entry carries the DECLARED value, verbatim
+                    o["sri"] = [{"a": a, "d": d}] + ([{"a": "sha1", "d": d}] if rng.random() < 0.6 else [])
                 w = "w%d" % n
                 prog["steps"].append({"op": "open_writer", "lane": lane, "key": k, "opts": o, "as": w, "plan": d})
                 prog["steps"].append({"op": "w_write", "lane": lane, "h": w, "data": d})
@@ -198,6 +202,9 @@ def history_program(rng, length, lanes=ALL_LANES, nkeys=6, ndata=5, removal_weig
                 prog["steps"].append({"op": "clear", "lane": lane})
             else:
                 prog["steps"].append({"op": "remove", "lane": lane, "key": k})
+        elif r >= 0.96 and rootlink:
+            prog["steps"].append({"op": "env_raw", "action": "root_symlink_ext"})
+            prog["steps"].append({"op": "env_ext", "id": "shared-%d" % n, "blob": rng.choice(datas)})
         elif r >= 0.93 and garbage:
             # a line that is no record (torn, foreign, not UTF-8, checksummed junk) ends up in the
             # key's bucket between two operations: later records must still be found
@@ -1039,6 +1046,12 @@ def index_damage_program(rng, lanes=ALL_LANES, nrec=3, flips="sample", cuts="all
     for g in GARBAGE_LINES:
         for idx in range(0, nrec + 2):
             dmgs.append({"mode": "insert_line", "index": idx, "bytes": g.hex()})
+    for i in range(nrec):
+        # bytes glued straight behind a record; every bit of every separating newline
+        for g in (b"\xff", b"\x8a", b"\xc3", b"x", b"\xe2\x82", b"\x00", b"\r"):
+            dmgs.append({"mode": "glue", "index": i, "bytes": g.hex()})
+        for bit in range(8):
+            dmgs.append({"mode": "flip_nl", "index": i, "bit": bit})
     for i in range(nrec):
         dmgs.append({"mode": "dup_line", "index": i})
         dmgs.append({"mode": "drop_nl", "index": i})
